@@ -147,9 +147,58 @@ def seqfun_apply(it, name, T, now, d):
 
 def seqfun_pop_fact(it, T, h, tl):
     it.ctx.__dict__.setdefault("seqfun_pops", []).append((T, h, tl))
+    for (name, T2, now) in it.ctx.__dict__.get("duefun_apps", []):
+        if T2.eq(T):
+            _duefun_unfold(it, name, T, now, h, tl)
     for (name, T2, now, d) in it.ctx.__dict__.get("seqfun_apps", []):
         if T2.eq(T):
             _seqfun_unfold(it, name, T, now, d, h, tl)
+
+
+# functions of delay's queue: records (notification, due) = tup2(tup2(int2val(kind), payload), int2val(due)); kind 1 = element,
+# 2 = completion.  Same ground-unfolding scheme as SEQFUNS.
+#   due_prefix_vals(T, now)       the elements of the longest prefix of due records (due <= now), up to a completion
+#   due_prefix_completes(T, now)  that prefix reaches the completion record
+#   drop_due_prefix(T, now)       what is left after that prefix (nothing after a completion)
+DUEFUNS = {
+    "due_prefix_vals": z3.Function("due_prefix_vals", smt.SeqVal, z3.IntSort(), smt.SeqVal),
+    "due_prefix_completes": z3.Function("due_prefix_completes", smt.SeqVal, z3.IntSort(), z3.BoolSort()),
+    "drop_due_prefix": z3.Function("drop_due_prefix", smt.SeqVal, z3.IntSort(), smt.SeqVal),
+}
+
+
+def _duefun_unfold(it, name, T, now, h=None, tl=None):
+    f = DUEFUNS[name]
+    n = z3.Length(T)
+    E = z3.Empty(smt.SeqVal)
+    base = {"due_prefix_vals": E, "due_prefix_completes": z3.BoolVal(False), "drop_due_prefix": E}[name]
+    if h is None:
+        h, tl = T[0], z3.Extract(T, 1, n - 1)
+        nonempty = n > 0
+        it.ctx.assume(z3.Implies(n == 0, f(T, now) == base))
+    else:
+        nonempty = z3.BoolVal(True)
+    due = smt.val2int(smt.tup2_1(h)) <= now
+    is_elem = smt.val2int(smt.tup2_0(smt.tup2_0(h))) == 1
+    x = z3.Unit(smt.tup2_1(smt.tup2_0(h)))
+    if name == "due_prefix_vals":
+        body = z3.If(z3.And(due, is_elem), z3.Concat(x, f(tl, now)), E)
+    elif name == "due_prefix_completes":
+        body = z3.If(due, z3.If(is_elem, f(tl, now), z3.BoolVal(True)), z3.BoolVal(False))
+    else:
+        body = z3.If(due, z3.If(is_elem, f(tl, now), E), T)
+    it.ctx.assume(z3.Implies(nonempty, f(T, now) == body))
+
+
+def duefun_apply(it, name, T, now):
+    apps = it.ctx.__dict__.setdefault("duefun_apps", [])
+    if not any(k[0] == name and k[1].eq(T) and k[2].eq(now) for k in apps):
+        apps.append((name, T, now))
+        _duefun_unfold(it, name, T, now)
+        for (T2, h, tl) in it.ctx.__dict__.get("seqfun_pops", []):
+            if T2.eq(T):
+                _duefun_unfold(it, name, T, now, h, tl)
+    return DUEFUNS[name](T, now)
 
 
 def seq_pair(it, a, b):
